@@ -35,6 +35,7 @@ class QuaHoldList(HoldList[QuaHold], QuaNoteList[QuaHold]):
         df.offset = df.offset.fillna(0)
         df.column = df.column.fillna(0)
         df.length = df.length.fillna(0)
+        df.keysounds = [k if isinstance(k, list) else [] for k in df.keysounds]
         return QuaHoldList(df)
 
     def to_yaml(self):
